@@ -51,8 +51,8 @@ Inductive skind := KControl | KEncoder | KDecoder | KGrease | KRequest.
 (* what was handed to one stream, in order; Some k = the transport had accepted only k bytes of that buffer when
    h3 stopped polling the write (only the grease stream can be left like that, see OPeerFrame) *)
 Record sstate := { s_id : N; s_kind : skind; s_out : list (wbuf * option N); s_fin : bool }.
-(* a RequestStream the application holds *)
-Record handle := { h_sid : N; h_grease : bool; h_alive : bool }.
+(* a RequestStream the application holds; stopped: the peer sent STOP_SENDING for our half, every write fails *)
+Record handle := { h_sid : N; h_grease : bool; h_alive : bool; h_stopped : bool }.
 
 Record conn := {
   c_server : bool;
@@ -67,57 +67,34 @@ Record conn := {
   c_last_accepted : option N;
   c_next_uni : N;
   c_next_bidi : N;
-  c_ongoing : list N }.
+  c_ongoing : list N;
+  c_got_settings : bool;       (* got_peer_settings *)
+  c_recv_closing : option N;   (* recv_closing *)
+  c_conn_error : bool }.       (* a connection error was raised (the connection is closed; h3 polls nothing any more) *)
 
 Definition upd_streams (c : conn) (ss : list sstate) : conn :=
-  {| c_server := c_server c; c_streams := ss; c_handles := c_handles c; c_control := c_control c;
-     c_grease_frame := c_grease_frame c; c_grease_stream := c_grease_stream c; c_grease_id := c_grease_id c;
-     c_closing := c_closing c;
-     c_sent_closing := c_sent_closing c; c_last_accepted := c_last_accepted c; c_next_uni := c_next_uni c;
-     c_next_bidi := c_next_bidi c; c_ongoing := c_ongoing c |}.
+  {| c_server := c_server c; c_streams := ss; c_handles := c_handles c; c_control := c_control c; c_grease_frame := c_grease_frame c; c_grease_stream := c_grease_stream c; c_grease_id := c_grease_id c; c_closing := c_closing c; c_sent_closing := c_sent_closing c; c_last_accepted := c_last_accepted c; c_next_uni := c_next_uni c; c_next_bidi := c_next_bidi c; c_ongoing := c_ongoing c; c_got_settings := c_got_settings c; c_recv_closing := c_recv_closing c; c_conn_error := c_conn_error c |}.
 Definition set_handles (c : conn) (hs : list handle) : conn :=
-  {| c_server := c_server c; c_streams := c_streams c; c_handles := hs; c_control := c_control c;
-     c_grease_frame := c_grease_frame c; c_grease_stream := c_grease_stream c; c_grease_id := c_grease_id c;
-     c_closing := c_closing c;
-     c_sent_closing := c_sent_closing c; c_last_accepted := c_last_accepted c; c_next_uni := c_next_uni c;
-     c_next_bidi := c_next_bidi c; c_ongoing := c_ongoing c |}.
+  {| c_server := c_server c; c_streams := c_streams c; c_handles := hs; c_control := c_control c; c_grease_frame := c_grease_frame c; c_grease_stream := c_grease_stream c; c_grease_id := c_grease_id c; c_closing := c_closing c; c_sent_closing := c_sent_closing c; c_last_accepted := c_last_accepted c; c_next_uni := c_next_uni c; c_next_bidi := c_next_bidi c; c_ongoing := c_ongoing c; c_got_settings := c_got_settings c; c_recv_closing := c_recv_closing c; c_conn_error := c_conn_error c |}.
 Definition set_ongoing (c : conn) (l : list N) : conn :=
-  {| c_server := c_server c; c_streams := c_streams c; c_handles := c_handles c; c_control := c_control c;
-     c_grease_frame := c_grease_frame c; c_grease_stream := c_grease_stream c; c_grease_id := c_grease_id c;
-     c_closing := c_closing c;
-     c_sent_closing := c_sent_closing c; c_last_accepted := c_last_accepted c; c_next_uni := c_next_uni c;
-     c_next_bidi := c_next_bidi c; c_ongoing := l |}.
+  {| c_server := c_server c; c_streams := c_streams c; c_handles := c_handles c; c_control := c_control c; c_grease_frame := c_grease_frame c; c_grease_stream := c_grease_stream c; c_grease_id := c_grease_id c; c_closing := c_closing c; c_sent_closing := c_sent_closing c; c_last_accepted := c_last_accepted c; c_next_uni := c_next_uni c; c_next_bidi := c_next_bidi c; c_ongoing := l; c_got_settings := c_got_settings c; c_recv_closing := c_recv_closing c; c_conn_error := c_conn_error c |}.
 Definition set_grease_frame (c : conn) (b : bool) : conn :=
-  {| c_server := c_server c; c_streams := c_streams c; c_handles := c_handles c; c_control := c_control c;
-     c_grease_frame := b; c_grease_stream := c_grease_stream c; c_grease_id := c_grease_id c;
-     c_closing := c_closing c;
-     c_sent_closing := c_sent_closing c; c_last_accepted := c_last_accepted c; c_next_uni := c_next_uni c;
-     c_next_bidi := c_next_bidi c; c_ongoing := c_ongoing c |}.
+  {| c_server := c_server c; c_streams := c_streams c; c_handles := c_handles c; c_control := c_control c; c_grease_frame := b; c_grease_stream := c_grease_stream c; c_grease_id := c_grease_id c; c_closing := c_closing c; c_sent_closing := c_sent_closing c; c_last_accepted := c_last_accepted c; c_next_uni := c_next_uni c; c_next_bidi := c_next_bidi c; c_ongoing := c_ongoing c; c_got_settings := c_got_settings c; c_recv_closing := c_recv_closing c; c_conn_error := c_conn_error c |}.
 (* grease stream bookkeeping: flag, stream in flight, next uni id *)
 Definition set_grease_stream (c : conn) (flag : bool) (inflight : option N) (next_uni : N) : conn :=
-  {| c_server := c_server c; c_streams := c_streams c; c_handles := c_handles c; c_control := c_control c;
-     c_grease_frame := c_grease_frame c; c_grease_stream := flag; c_grease_id := inflight;
-     c_closing := c_closing c;
-     c_sent_closing := c_sent_closing c; c_last_accepted := c_last_accepted c; c_next_uni := next_uni;
-     c_next_bidi := c_next_bidi c; c_ongoing := c_ongoing c |}.
+  {| c_server := c_server c; c_streams := c_streams c; c_handles := c_handles c; c_control := c_control c; c_grease_frame := c_grease_frame c; c_grease_stream := flag; c_grease_id := inflight; c_closing := c_closing c; c_sent_closing := c_sent_closing c; c_last_accepted := c_last_accepted c; c_next_uni := next_uni; c_next_bidi := c_next_bidi c; c_ongoing := c_ongoing c; c_got_settings := c_got_settings c; c_recv_closing := c_recv_closing c; c_conn_error := c_conn_error c |}.
 Definition set_closing (c : conn) (sent : N) : conn :=
-  {| c_server := c_server c; c_streams := c_streams c; c_handles := c_handles c; c_control := c_control c;
-     c_grease_frame := c_grease_frame c; c_grease_stream := c_grease_stream c; c_grease_id := c_grease_id c;
-     c_closing := true;
-     c_sent_closing := Some sent; c_last_accepted := c_last_accepted c; c_next_uni := c_next_uni c;
-     c_next_bidi := c_next_bidi c; c_ongoing := c_ongoing c |}.
+  {| c_server := c_server c; c_streams := c_streams c; c_handles := c_handles c; c_control := c_control c; c_grease_frame := c_grease_frame c; c_grease_stream := c_grease_stream c; c_grease_id := c_grease_id c; c_closing := true; c_sent_closing := Some sent; c_last_accepted := c_last_accepted c; c_next_uni := c_next_uni c; c_next_bidi := c_next_bidi c; c_ongoing := c_ongoing c; c_got_settings := c_got_settings c; c_recv_closing := c_recv_closing c; c_conn_error := c_conn_error c |}.
 Definition set_last_accepted (c : conn) (l : N) : conn :=
-  {| c_server := c_server c; c_streams := c_streams c; c_handles := c_handles c; c_control := c_control c;
-     c_grease_frame := c_grease_frame c; c_grease_stream := c_grease_stream c; c_grease_id := c_grease_id c;
-     c_closing := c_closing c;
-     c_sent_closing := c_sent_closing c; c_last_accepted := Some l; c_next_uni := c_next_uni c;
-     c_next_bidi := c_next_bidi c; c_ongoing := c_ongoing c |}.
+  {| c_server := c_server c; c_streams := c_streams c; c_handles := c_handles c; c_control := c_control c; c_grease_frame := c_grease_frame c; c_grease_stream := c_grease_stream c; c_grease_id := c_grease_id c; c_closing := c_closing c; c_sent_closing := c_sent_closing c; c_last_accepted := Some l; c_next_uni := c_next_uni c; c_next_bidi := c_next_bidi c; c_ongoing := c_ongoing c; c_got_settings := c_got_settings c; c_recv_closing := c_recv_closing c; c_conn_error := c_conn_error c |}.
 Definition set_next_bidi (c : conn) (n : N) : conn :=
-  {| c_server := c_server c; c_streams := c_streams c; c_handles := c_handles c; c_control := c_control c;
-     c_grease_frame := c_grease_frame c; c_grease_stream := c_grease_stream c; c_grease_id := c_grease_id c;
-     c_closing := c_closing c;
-     c_sent_closing := c_sent_closing c; c_last_accepted := c_last_accepted c; c_next_uni := c_next_uni c;
-     c_next_bidi := n; c_ongoing := c_ongoing c |}.
+  {| c_server := c_server c; c_streams := c_streams c; c_handles := c_handles c; c_control := c_control c; c_grease_frame := c_grease_frame c; c_grease_stream := c_grease_stream c; c_grease_id := c_grease_id c; c_closing := c_closing c; c_sent_closing := c_sent_closing c; c_last_accepted := c_last_accepted c; c_next_uni := c_next_uni c; c_next_bidi := n; c_ongoing := c_ongoing c; c_got_settings := c_got_settings c; c_recv_closing := c_recv_closing c; c_conn_error := c_conn_error c |}.
+Definition set_got_settings (c : conn)  : conn :=
+  {| c_server := c_server c; c_streams := c_streams c; c_handles := c_handles c; c_control := c_control c; c_grease_frame := c_grease_frame c; c_grease_stream := c_grease_stream c; c_grease_id := c_grease_id c; c_closing := c_closing c; c_sent_closing := c_sent_closing c; c_last_accepted := c_last_accepted c; c_next_uni := c_next_uni c; c_next_bidi := c_next_bidi c; c_ongoing := c_ongoing c; c_got_settings := true; c_recv_closing := c_recv_closing c; c_conn_error := c_conn_error c |}.
+Definition set_recv_closing (c : conn) (id : N) : conn :=
+  {| c_server := c_server c; c_streams := c_streams c; c_handles := c_handles c; c_control := c_control c; c_grease_frame := c_grease_frame c; c_grease_stream := c_grease_stream c; c_grease_id := c_grease_id c; c_closing := true; c_sent_closing := c_sent_closing c; c_last_accepted := c_last_accepted c; c_next_uni := c_next_uni c; c_next_bidi := c_next_bidi c; c_ongoing := c_ongoing c; c_got_settings := c_got_settings c; c_recv_closing := Some id; c_conn_error := c_conn_error c |}.
+Definition set_conn_error (c : conn)  : conn :=
+  {| c_server := c_server c; c_streams := c_streams c; c_handles := c_handles c; c_control := c_control c; c_grease_frame := c_grease_frame c; c_grease_stream := c_grease_stream c; c_grease_id := c_grease_id c; c_closing := c_closing c; c_sent_closing := c_sent_closing c; c_last_accepted := c_last_accepted c; c_next_uni := c_next_uni c; c_next_bidi := c_next_bidi c; c_ongoing := c_ongoing c; c_got_settings := c_got_settings c; c_recv_closing := c_recv_closing c; c_conn_error := true |}.
 
 Fixpoint has_stream (ss : list sstate) (id : N) : bool :=
   match ss with [] => false | s :: r => (s_id s =? id) || has_stream r id end.
@@ -191,7 +168,8 @@ Definition setup (server : bool) (cfg : config) (g : N) : res unit (option conn)
                    c_grease_frame := cf_grease cfg; c_grease_stream := cf_grease cfg; c_grease_id := None;
                    c_closing := false;
                    c_sent_closing := None; c_last_accepted := None;
-                   c_next_uni := first_uni + 12; c_next_bidi := (if server then 1 else 0); c_ongoing := [] |} in
+                   c_next_uni := first_uni + 12; c_next_bidi := (if server then 1 else 0); c_ongoing := [];
+                   c_got_settings := false; c_recv_closing := None; c_conn_error := false |} in
       match res_bind (res_bind (setup_write first_uni es 0 c0) (setup_write first_uni es 2)) (setup_write first_uni es 1) with
       | Ok c => Ok (Some c)
       | Err e => Err e
@@ -200,20 +178,37 @@ Definition setup (server : bool) (cfg : config) (g : N) : res unit (option conn)
   end.
 
 (* ---- API calls ---- *)
+(* a frame the peer sent on ITS control stream, as ConnectionInner::poll_control and the role handlers sort it *)
+Inductive peer_frame :=
+| PSettings                 (* a well-formed SETTINGS frame *)
+| PGoaway (id : N)
+| PPush                     (* MAX_PUSH_ID or CANCEL_PUSH *)
+| PSkipped                  (* a reserved / unknown type: FrameStream drops it, poll_control does not return *)
+| PIllegal.                 (* anything else (DATA, HEADERS, PUSH_PROMISE, HTTP/2 types, malformed payload) *)
+
+(* what accept() + resolve_request() make of the next client stream *)
+Inductive accept_outcome :=
+| AHandle (stopped : bool)            (* the application gets a RequestStream (stopped: STOP_SENDING already received) *)
+| ATooLarge (block : bytes)           (* the request exceeded max_field_section_size: resolve() answers 431 itself *)
+| AFailed (conn_error : bool).        (* resolve failed: stream error (reset) or connection error; nothing written *)
+
 Inductive op :=
-| OPeerFrame (gs gf : N) (accepted : option N)
-    (* poll_control returned a frame of the peer: poll_grease_stream runs once (opening the stream and handing it
+| OPeerControl (f : peer_frame) (gs gf : N) (accepted : option N)
+    (* the endpoint polls its connection (server accept(), client poll_close()) and poll_control meets frame f of the peer.
+       Whenever poll_control RETURNS a frame, poll_grease_stream runs once (opening the stream and handing it
        (StreamType::grease(), Frame::Grease) with the draws gs, gf, or resuming that write); accepted = Some k: the
        transport has taken k bytes so far and returned Pending - the result of poll_grease_stream is ignored and it is
-       not polled again until the peer sends another control frame; None: written completely, the stream is finished *)
-| OAccept (sid : N) (too_large : option bytes)
-    (* server: client stream sid arrives, accept() then resolve_request(); Some block = the request exceeded
-       max_field_section_size and resolve() answers 431 itself with that field section *)
+       not polled again until the next returned frame; None: written completely, the stream is finished *)
+| OPoll
+    (* server: accept() is polled with no new stream: once a GOAWAY was received and no request is ongoing it returns
+       None after sending its final GOAWAY *)
+| OAccept (sid : N) (outcome : accept_outcome)
 | ORequest (block : option bytes)     (* client send_request; None = HeaderTooBig (after the stream was opened) *)
 | OHeaders (h : N) (block : option bytes)   (* send_response / send_trailers on handle h; None = nothing written *)
 | OData (h : N) (p : list bytes)
 | OFinish (h : N) (g : N)
 | OStop (h : N)
+| OStopSending (h : N)                (* the peer sends STOP_SENDING for the stream of handle h *)
 | ODrop (h : N)
 | OShutdown (n : N).
 
@@ -226,6 +221,13 @@ Fixpoint map_nth {A} (f : A -> A) (i : N) (l : list A) : list A :=
 Definition live_handle (c : conn) (h : N) : option handle :=
   match nth_n (c_handles c) h with
   | Some hd => if h_alive hd then Some hd else None
+  | None => None
+  end.
+
+(* a handle whose writes still reach the transport *)
+Definition writable_handle (c : conn) (h : N) : option handle :=
+  match live_handle c h with
+  | Some hd => if h_stopped hd then None else Some hd
   | None => None
   end.
 
@@ -252,43 +254,88 @@ Definition api_shutdown (c : conn) (n : N) : res unit conn :=
 Definition remove_id (id : N) (l : list N) : list N := filter (fun x => negb (x =? id)) l.
 
 Definition clear_grease (hd : handle) : handle :=
-  {| h_sid := h_sid hd; h_alive := h_alive hd; h_grease := if finish_clears_flag then false else h_grease hd |}.
-Definition kill (hd : handle) : handle := {| h_sid := h_sid hd; h_grease := h_grease hd; h_alive := false |}.
+  {| h_sid := h_sid hd; h_alive := h_alive hd; h_grease := if finish_clears_flag then false else h_grease hd;
+     h_stopped := h_stopped hd |}.
+Definition kill (hd : handle) : handle :=
+  {| h_sid := h_sid hd; h_grease := h_grease hd; h_alive := false; h_stopped := h_stopped hd |}.
+Definition stop_handle (hd : handle) : handle :=
+  {| h_sid := h_sid hd; h_grease := h_grease hd; h_alive := h_alive hd; h_stopped := true |}.
 
-Definition step (c : conn) (o : op) : res unit conn :=
-  match o with
-  | OPeerFrame gs gf accepted =>
-      if c_grease_stream c then
-        match c_grease_id c with
-        | Some id =>
-            (* DataPrepared: poll_ready again *)
-            let c1 := upd_streams c (map_stream (set_cut accepted) id (c_streams c)) in
-            Ok (match accepted with
-                | None => set_grease_stream (if grease_stream_finishes then finish_stream c1 id else c1) false None (c_next_uni c1)
-                | Some _ => c1
-                end)
-        | None =>
-            let id := c_next_uni c in
-            let c1 := add_stream c id KGrease in
-            match grease_value gs st_grease_mul st_grease_add with
-            | Ok ty =>
-                match write_to c1 id (wb_from_pair ty (FGrease gf)) accepted with
-                | Ok c2 => Ok (match accepted with
-                               | None => set_grease_stream (if grease_stream_finishes then finish_stream c2 id else c2)
-                                                           false None (c_next_uni c + 4)
-                               | Some _ => set_grease_stream c2 true (Some id) (c_next_uni c + 4)
-                               end)
-                | Err e => Err e
-                | Panic s => Panic s
-                end
+(* poll_grease_stream, once *)
+Definition grease_poll (c : conn) (gs gf : N) (accepted : option N) : res unit conn :=
+  if c_grease_stream c then
+    match c_grease_id c with
+    | Some id =>
+        (* DataPrepared: poll_ready again *)
+        let c1 := upd_streams c (map_stream (set_cut accepted) id (c_streams c)) in
+        Ok (match accepted with
+            | None => set_grease_stream (if grease_stream_finishes then finish_stream c1 id else c1) false None (c_next_uni c1)
+            | Some _ => c1
+            end)
+    | None =>
+        let id := c_next_uni c in
+        let c1 := add_stream c id KGrease in
+        match grease_value gs st_grease_mul st_grease_add with
+        | Ok ty =>
+            match write_to c1 id (wb_from_pair ty (FGrease gf)) accepted with
+            | Ok c2 => Ok (match accepted with
+                           | None => set_grease_stream (if grease_stream_finishes then finish_stream c2 id else c2)
+                                                       false None (c_next_uni c + 4)
+                           | Some _ => set_grease_stream c2 true (Some id) (c_next_uni c + 4)
+                           end)
             | Err e => Err e
             | Panic s => Panic s
             end
+        | Err e => Err e
+        | Panic s => Panic s
         end
-      else Ok c
-  | OAccept sid too_large =>
+    end
+  else Ok c.
+
+(* ConnectionInner::process_goaway *)
+Definition process_goaway (c : conn) (id : N) : conn :=
+  if match c_recv_closing c with Some prev => prev <? id | None => false end then set_conn_error c
+  else set_recv_closing c id.
+
+(* accept() finding nothing to accept *)
+Definition accept_idle (c : conn) : res unit conn :=
+  if c_conn_error c then Ok c
+  else match c_recv_closing c, c_ongoing c with
+       | Some _, [] => api_shutdown c 0
+       | _, _ => Ok c
+       end.
+
+Definition step (c : conn) (o : op) : res unit conn :=
+  match o with
+  | OPeerControl f gs gf accepted =>
+      if c_conn_error c then Ok c else
+      match f with
+      | PSkipped => Ok c
+      | PIllegal => Ok (set_conn_error c)
+      | PSettings =>
+          if c_got_settings c then Ok (set_conn_error c)
+          else grease_poll (set_got_settings c) gs gf accepted
+      | PGoaway id =>
+          if negb (c_got_settings c) then Ok (set_conn_error c)
+          else match grease_poll c gs gf accepted with
+               | Ok c1 => if negb (c_server c1) && negb (sid_is_request id) then Ok (set_conn_error c1)
+                          else Ok (process_goaway c1 id)
+               | Err e => Err e
+               | Panic s => Panic s
+               end
+      | PPush =>
+          if negb (c_got_settings c) then Ok (set_conn_error c)
+          else match grease_poll c gs gf accepted with
+               | Ok c1 => if c_server c1 then Ok c1 else Ok (set_conn_error c1)
+               | Err e => Err e
+               | Panic s => Panic s
+               end
+      end
+  | OPoll => if c_server c then accept_idle c else Ok c
+  | OAccept sid outcome =>
       if negb (c_server c) then Ok c else
       let c0 := add_stream c sid KRequest in
+      if c_conn_error c0 then Ok c0 else
       if match c_sent_closing c0 with Some m => m <=? sid | None => false end then
         (* rejected; accept() returns None (and sends its final GOAWAY) only when no request is ongoing *)
         match c_ongoing c0 with
@@ -299,14 +346,18 @@ Definition step (c : conn) (o : op) : res unit conn :=
         let last := match c_last_accepted c0 with Some l => N.max l sid | None => sid end in
         let grease := c_grease_frame c0 in
         let c1 := set_ongoing (set_last_accepted (set_grease_frame c0 false) last) (c_ongoing c0 ++ [sid]) in
-        match too_large with
-        | Some block =>
+        match outcome with
+        | ATooLarge block =>
             match write_to c1 sid (wb_from_frame (FHeaders block)) None with
             | Ok c2 => Ok (set_ongoing c2 (remove_id sid (c_ongoing c2)))
             | Err e => Err e
             | Panic s => Panic s
             end
-        | None => Ok (set_handles c1 (c_handles c1 ++ [{| h_sid := sid; h_grease := grease; h_alive := true |}]))
+        | AFailed ce =>
+            let c2 := set_ongoing c1 (remove_id sid (c_ongoing c1)) in
+            Ok (if ce then set_conn_error c2 else c2)
+        | AHandle stopped =>
+            Ok (set_handles c1 (c_handles c1 ++ [{| h_sid := sid; h_grease := grease; h_alive := true; h_stopped := stopped |}]))
         end
   | ORequest block =>
       if c_server c || c_closing c then Ok c else
@@ -318,25 +369,27 @@ Definition step (c : conn) (o : op) : res unit conn :=
           match write_to c1 id (wb_from_frame (FHeaders b)) None with
           | Ok c2 =>
               Ok (set_grease_frame
-                    (set_handles c2 (c_handles c2 ++ [{| h_sid := id; h_grease := c_grease_frame c2; h_alive := true |}]))
+                    (set_handles c2 (c_handles c2 ++ [{| h_sid := id; h_grease := c_grease_frame c2; h_alive := true; h_stopped := false |}]))
                     false)
           | Err e => Err e
           | Panic s => Panic s
           end
       end
   | OHeaders h block =>
-      match live_handle c h, block with
+      match writable_handle c h, block with
       | Some hd, Some b => write_to c (h_sid hd) (wb_from_frame (FHeaders b)) None
       | _, _ => Ok c
       end
   | OData h p =>
-      match live_handle c h with
+      match writable_handle c h with
       | Some hd => write_to c (h_sid hd) (wb_from_frame (FData p)) None
       | None => Ok c
       end
   | OFinish h g =>
       match live_handle c h with
       | Some hd =>
+          if h_stopped hd && h_grease hd && finish_frame_is_grease then Ok c   (* the grease write fails: early return *)
+          else
           let r := if h_grease hd && finish_frame_is_grease
                    then write_to c (h_sid hd) (wb_from_frame (FGrease g)) None else Ok c in
           match r with
@@ -349,6 +402,11 @@ Definition step (c : conn) (o : op) : res unit conn :=
       | None => Ok c
       end
   | OStop h => Ok c
+  | OStopSending h =>
+      match live_handle c h with
+      | Some _ => Ok (set_handles c (map_nth stop_handle h (c_handles c)))
+      | None => Ok c
+      end
   | ODrop h =>
       match live_handle c h with
       | Some hd => Ok (set_ongoing (set_handles c (map_nth kill h (c_handles c))) (remove_id (h_sid hd) (c_ongoing c)))
